@@ -70,7 +70,7 @@ fn status_allows(rule: u8, st: u8, need_store: bool, offline: bool) -> bool {
         1 => st == 1,                                   // CONNACK
         2 => st == 1 || st == 2,                        // AUTH
         3 => st == 2,                                   // everything else
-        4 => st == 2 || need_store || offline,          // QoS>0 PUBLISH (persistent / offline)
+        4 => st == 2 || offline || (need_store && st == 1), // QoS>0 PUBLISH: connected, offline publishing, or persistent while connecting
         _ => st == 2 || need_store,                     // PUBREL
     }
 }
